@@ -419,6 +419,16 @@ func (r *FnResult) Discharge(opt SolveOptions) {
 	// a function with many undischarged obligations is reported as failing either way.
 	var deepMu sync.Mutex
 	deepLeft := 6
+	longLeft := 2
+	takeLong := func() bool {
+		deepMu.Lock()
+		defer deepMu.Unlock()
+		if longLeft > 0 {
+			longLeft--
+			return true
+		}
+		return false
+	}
 	takeDeep := func() bool {
 		deepMu.Lock()
 		defer deepMu.Unlock()
@@ -452,7 +462,7 @@ func (r *FnResult) Discharge(opt SolveOptions) {
 					if len(parts) > 1 {
 						pn = fmt.Sprintf("%s__part%d", name, k)
 					}
-					v, runs, detail := r.proveGoal(g, pn, opt, takeDeep)
+					v, runs, detail := r.proveGoal(g, pn, opt, takeDeep, takeLong)
 					out[k] = pres{v, runs, detail}
 				}(k, g)
 			}
@@ -530,7 +540,7 @@ func splitGoal(f *TermFactory, g *Term) []*Term {
 }
 
 // proveGoal: direct attempt, then the cut stage, then a longer timeout.
-func (r *FnResult) proveGoal(g *Term, name string, opt SolveOptions, takeDeep func() bool) (string, []SolverRun, string) {
+func (r *FnResult) proveGoal(g *Term, name string, opt SolveOptions, takeDeep, takeLong func() bool) (string, []SolverRun, string) {
 	text := func(with []*Term) string { return r.Script.TextFor([]*Term{g}, true, with) }
 	v, runs := Race(text(nil), opt.Dir, name, opt.Timeout, opt.NeedTwo)
 	if v == "unsat-single" {
@@ -553,6 +563,21 @@ func (r *FnResult) proveGoal(g *Term, name string, opt SolveOptions, takeDeep fu
 	runs = append(runs, runs2...)
 	if v2 == "unsat" || v2 == "sat" {
 		return v2, runs, runDetail(runs, v2)
+	}
+	// last stage, for a loaded machine: if some solver was still working when it was stopped (time-out, not a
+	// definite "unknown"), give the goal one long run
+	timedOut := false
+	for _, rr := range runs2 {
+		if rr.Answer == "timeout" {
+			timedOut = true
+		}
+	}
+	if timedOut && takeLong() {
+		v3, runs3 := Race(text(nil), opt.Dir, name, 12*opt.Timeout, false)
+		runs = append(runs, runs3...)
+		if v3 == "unsat" || v3 == "sat" {
+			return v3, runs, runDetail(runs, v3)
+		}
 	}
 	return "unknown", runs, runDetail(runs, "unknown")
 }
